@@ -11,6 +11,19 @@ def _lt(a, b):
     return a < b
 
 
+def _tostr(v):
+    """str(v); symbolic values provide their own symbolic string form"""
+    if isinstance(v, str):
+        return v
+    f = getattr(v, '__symstr__', None)
+    return f() if f is not None else str(v)
+
+
+def _len(v):
+    f = getattr(v, 'symlen', None)
+    return f() if f is not None else len(v)
+
+
 def stable_sort(items, key, reverse=False):
     """insertion sort using only `<` on keys (comparisons on symbolic values fork); stable in both directions"""
     items = list(items)
@@ -40,7 +53,7 @@ class _StrAcc:
         return Series([pat in v for v in self.s.data], self.s.index, self.s.name)
 
     def len(self):
-        return Series([len(v) for v in self.s.data], self.s.index, self.s.name)
+        return Series([_len(v) for v in self.s.data], self.s.index, self.s.name)
 
     def cat(self, others=None, sep=''):
         if others is None:
@@ -98,7 +111,7 @@ class Series:
 
     def astype(self, t):
         if t is str or t == 'str':
-            return Series([v if isinstance(v, str) else str(v) for v in self.data], self.index, self.name)
+            return Series([_tostr(v) for v in self.data], self.index, self.name)
         if t == 'category':
             return self.copy()
         return Series([t(v) for v in self.data], self.index, self.name)
@@ -137,6 +150,11 @@ class Series:
 
     def __radd__(self, o):
         return self._bin(o, lambda a, b: b + a)
+
+    def __iadd__(self, o):
+        # pandas Series += is IN PLACE: every alias of the object sees the change
+        self.data = self._bin(o, lambda a, b: a + b).data
+        return self
 
     def __sub__(self, o):
         return self._bin(o, lambda a, b: a - b)
@@ -342,7 +360,7 @@ class DataFrame:
     def astype(self, t):
         d = self.copy()
         if t is str or t == 'str':
-            d.rows = [[v if isinstance(v, str) else str(v) for v in r] for r in d.rows]
+            d.rows = [[_tostr(v) for v in r] for r in d.rows]
         return d
 
     def _col(self, c):
